@@ -25,3 +25,28 @@ def run(subcmd: str, cases: list[dict], timeout: float = 600.0) -> list[dict]:
         raise RuntimeError(f"vrt {subcmd}: rc={p.returncode} got {len(out)}/{len(cases)} results; "
                            f"stderr={p.stderr.decode(errors='replace')[-800:]}")
     return out
+
+
+def run_valgrind(subcmd: str, cases: list[dict], timeout: float = 1800.0):
+    """Same bridge under valgrind memcheck. -> (results | None, report) ; report = {"available", "errors", "log"}.
+    Every memcheck error makes valgrind exit 97 (--error-exitcode); leak checking is off (process-lifetime statics)."""
+    import shutil
+    vg = shutil.which("valgrind")
+    if not vg or not cases:
+        return None, {"available": bool(vg), "errors": 0, "log": ""}
+    inp = "\n".join(json.dumps(c, separators=(",", ":")) for c in cases) + "\n"
+    p = subprocess.run([vg, "--error-exitcode=97", "--leak-check=no", "--quiet", str(VRT), subcmd], input=inp.encode(),
+                       stdout=subprocess.PIPE, stderr=subprocess.PIPE, timeout=timeout)
+    err = p.stderr.decode(errors="replace")
+    out = []
+    for l in p.stdout.decode().splitlines():
+        if l.strip():
+            try:
+                out.append(json.loads(l))
+            except json.JSONDecodeError:
+                out.append({"harness_error": l[:200]})
+    nerr = err.count("== Invalid ") + err.count("== Conditional jump") + err.count("== Use of uninitialised") + \
+        err.count("== Mismatched free") + err.count("== Invalid free")
+    if p.returncode == 97 and nerr == 0:
+        nerr = 1
+    return out, {"available": True, "errors": nerr, "rc": p.returncode, "log": err[-1500:], "results": len(out)}
